@@ -179,6 +179,19 @@ func checkDecoded(c *sim.Ctx, site string, dp ttheader.DecodeParam, p *ref.TTPar
 	if dp.PayloadLen != payloadLen {
 		c.Fail("FRAME_LEN", site, sim.F{"which": "payload"}, "decoded payload length %d, the payload has %d bytes", dp.PayloadLen, payloadLen)
 	}
+	scribbleDecoded(dp)
+}
+
+// scribbleDecoded does what a caller is entitled to do with maps it was handed: it writes
+// into them. A decoder that hands out shared maps would then report these entries for
+// other frames.
+func scribbleDecoded(dp ttheader.DecodeParam) {
+	if dp.IntInfo != nil {
+		dp.IntInfo[0xBEEF] = "written by the previous caller"
+	}
+	if dp.StrInfo != nil {
+		dp.StrInfo["written-by-the-previous-caller"] = "x"
+	}
 }
 
 // c06Pipeline: a connection. 2..8 frames with payloads are encoded back to back into one
